@@ -45,6 +45,8 @@ def runCase (s : Schema) (line : String) : String :=
             ("recovers", Json.num st.recovers),
             ("unlogged", Json.arr (st.unlogged.map Json.str).toArray),
             ("wf", Json.bool (fieldsWfb fields)),
+            ("implementorsOK", Json.bool (s.types.all fun ty => ty.kind != Kind.object ||
+              s.types.all fun tc => ty.implementors.contains tc.name == Spec.applies s ty tc.name)),
             ("dupsUnrelated", Json.bool (fieldsDupsUnrelated s fields)),
             ("spec", Json.str specVerdict)]
           res.compress
